@@ -29,14 +29,45 @@ timestamp_later_than_scan_start it is the scan start of that round, i.e. what an
 that honours the statement's second sentence wrote), so that a file modified after the
 stepped-back update, with mtime before the stale TIMESTAMP, is demanded to be picked up.
 
+Family 'dirs' (histories of whole-directory edits; same replicas, same rounds, same oracle,
+monotonic clock, scan start on the whole second, all three zones, both layouts, R = 2 rounds
+(quick also R = 3 in UTC with package kinds plain / own plain Manifest only);
+thorough: R = 3 in UTC, and R = 2 in all zones with every compression - see DIRS_PLAN).  A *package directory* can exist at two places - next to the slot
+directory ('top') and inside it ('inner', i.e. below the sub-Manifest in the nested layout).
+It holds two files and, depending on its kind, nothing else ('plain') or a Manifest file of
+its own that the harness writes with the reference writer: one valid DATA entry (size, SHA1)
+per file, stored as ``Manifest`` ('mani'), ``Manifest.gz`` ('gz') or - thorough tier, two-round
+histories - ``Manifest.bz2``, ``Manifest.lzma``, ``Manifest.xz``.  Nothing in the tree refers to such a Manifest when it arrives.
+Operations of a round: add a package directory (place x kind x mtime class, every file in it
+gets that mtime); remove a package directory or the slot directory with everything in them;
+replace a package directory by a fresh copy in which one file has other content of the same
+/ of another size and the directory's own Manifest (if it has one) is regenerated to match
+(x mtime class for all files of the copy); a Manifest file appears in an existing directory
+that has none (slot directory in the flat layout, 'plain' package directories) - with one
+valid entry per file below that directory or with no entry, plain or compressed, x mtime
+class; and inside an existing package directory: modify a file keeping / changing its size,
+add a file (x mtime class), delete a file.  The premise is not looked up per operation but
+read off the tree: snapshots before / after the edit give the files whose content was
+modified (MUST needs a changed size or an mtime later than the previous TIMESTAMP for each,
+Manifest files included) and the added files (mtime not later: DONT_CARE as in 'hist').
+When *both* updates fail on the edited tree (the pinned gemato raises FileNotFoundError from
+either when a directory is gone whose Manifest the tree still refers to) the round is
+DONT_CARE provided they left equal Manifest contents, and the history ends there; when only
+one of them fails that is reported.
+
 Family 'inflight' (the *schedule* quantifier).  While an update (incremental or full) is
-running, right after the k-th per-file call of ``update_entry_for_path`` has returned
+running, right after the k-th call of ``update_entry_for_path`` on a regular file has returned
 (k = 0: right after the start time has been taken), file j is rewritten (same size /
 other size) with mtime = the instant of the edit (scan start + 0, + 0.5 s, + 2 s); either
 nothing else had changed (the running update then keeps the old TIMESTAMP) or another
 file had (it writes a fresh TIMESTAMP).  Then one more ``update --incremental`` runs
 100 s later and, on the same directory and at the same instant, a full update: the full
-update must have nothing left to correct.
+update must have nothing left to correct.  The number of injection points K is whatever a dry
+run of the same update without an edit shows (per running mode, pending change and file j);
+nothing is assumed about how many calls the implementation spends per file.  Instead the
+harness looks at what the running update recorded for file j (content before / after the
+edit) and demands of itself that, for every file, some injection came before and some after
+a running full update recorded it.
 
 Oracle (three-valued).  MUST: after a round in which every content-modified file has a
 changed size or an mtime strictly later than the previous TIMESTAMP, the reference-parsed
@@ -88,10 +119,23 @@ RULE = ('hist: {UTC, XXX-3, XXX5} x {flat, nested layout} x {(clock mono, scan s
         'T0+100*round (mono), T0-3600+100*round (back1: clock stepped back 3600 s before round 1; back2: the same '
         'from round 2 on, round 1 at T0+100); a state is a (configuration, history prefix); non-trivial = the '
         'round was judged MUST. '
-        'inflight: the same configurations x running update {incremental, full} x k in 0..K (K = number of '
-        'update_entry_for_path calls that carry the last_mtime keyword, i.e. the per-file calls of the walk) x '
-        'file slot j x {same size, other size} x edit instant {scan start +0, +0.5 s, +2 s} x {no other pending '
-        'change, another file changed beforehand}, then incremental + full update 100 s later')
+        'dirs: {UTC, XXX-3, XXX5} x {flat, nested} x (clock mono, scan start on the second) x every history of R '
+        'rounds (quick: R=2 with kinds K = {plain, own valid Manifest, own valid Manifest.gz}; thorough: R=3 with '
+        'the same K in UTC plus R=2 in all three zones with K extended by Manifest.bz2, .lzma, .xz) of one '
+        'applicable operation: dir_add x place {top, inner = inside the slot '
+        'directory} x kind in K x mtime '
+        'class (place must be free) | dir_remove x {top, inner, slot directory} (present) | dir_replace x place x '
+        '{one file rewritten with same size, with other size; own Manifest regenerated} x mtime class (package '
+        'present) | mani_appear x {slot directory, top, inner} x {one valid entry per file below, no entries} x '
+        '(K without plain) x mtime class (directory present and without a Manifest '
+        'file) | inside a present package directory: {modify_same_size, modify_other_size, add a file} x mtime class, '
+        'delete a file; updates, clock and comparison as in hist; verdict from the premise evaluated on tree '
+        'snapshots before/after the edit; non-trivial = judged MUST. '
+        'inflight: the hist configurations with the monotonic clock x running update {incremental, full} x {no other '
+        'pending change, another file changed beforehand} x file slot j x k in 0..K (K = number of '
+        'update_entry_for_path calls on regular files that returned during a dry run of the same update without an '
+        'edit; k=0: right after the start time was taken) x {same size, other size} x edit instant {scan start +0, '
+        '+0.5 s, +2 s}, then incremental + full update 100 s later')
 ASSUMPTIONS = [
     'the clock is owned by replacing the name `datetime` inside gemato.cli with a stand-in module whose '
     'datetime.utcnow()/now() return the harness instant; it never advances on its own (only the in-flight hook '
@@ -107,7 +151,9 @@ ASSUMPTIONS = [
     '(checked: a difference without such a report is a harness error)',
     'sub-Manifest edits: the DIST / IGNORE lines name nothing that exists; applied identically to both '
     'replicas; the appended lines are never duplicated (duplicate entries are another property)',
-    'os.scandir order is pinned to sorted order so that "the k-th call" is reproducible',
+    'os.scandir order is pinned to sorted order so that "the k-th call" is reproducible; the in-flight seam is '
+    'gemato.recursiveloader.update_entry_for_path (DESIGN 0): each normal return of a call on a regular file is an '
+    'injection point, wherever the call comes from and however often a file is visited',
     'create and round 1 of every history, the two updates under test of every in-flight case and every replay go '
     'through the unmodified gemato.cli.main (gem.cli); rounds >= 2 of the exploration (and create / comparison '
     'update / verify of the in-flight cases) run main()\'s body with the argparse tree built '
@@ -119,8 +165,23 @@ ASSUMPTIONS = [
     'in B counts as a difference; `gemato verify` on replica A checks it once more',
     'after a DONT_CARE round or a violation replica A is re-synchronised with one full update at the same fake '
     'instant and the history continues (the explored space does not depend on the verdicts)',
-    'operations with mtime classes only for files that exist / slots that are absent; directories are never '
-    'removed; only the default profile, SHA1, no compression, no signing; TIMESTAMP refresh without -t',
+    'operations with mtime classes only for files that exist / slots that are absent; only the default profile, '
+    'SHA1, no signing; TIMESTAMP refresh without -t; family hist never removes a directory and has no compressed '
+    'Manifest',
+    'family dirs: Manifest files that arrive with a directory or appear in one are written by the reference '
+    'writer (gverif.refmanifest), valid for the files they cover (DATA, size, SHA1 - the hash set of the updates), '
+    'compressed with gzip (mtime field 0) / bz2 / lzma / xz by the harness; Manifest files of all replicas are '
+    'decompressed by file suffix before the reference parser reads them, a MANIFEST entry is checked against the '
+    'bytes on disk; invalid or stale shipped Manifests, Manifests with other hash sets, TIMESTAMP or '
+    'IGNORE entries in shipped Manifests, directories deeper than two levels and symlinked directories are not '
+    'explored; the slot-file operations of hist are not mixed into dirs histories; a removed slot directory does '
+    'not come back',
+    'family dirs, an appearing Manifest with entries lists every regular file below its directory except those '
+    'inside a deeper directory that has a Manifest file of its own; entries for the same files that an upper '
+    'Manifest already carries stay there until an update moves or drops them (both replicas alike)',
+    'family dirs tolerates an update that fails: both fail + equal Manifest contents = DONT_CARE, history ends; '
+    'if after a differing round a full update on A does not reproduce B (what the incremental run recorded is '
+    'not undone), A continues as a copy of B (counted as dirs/resync_by_copy_of_B)',
     'touch / replace_equal / delete rounds modify no content, so equality is demanded for every mtime class',
     'the in-flight family runs with the monotonic clock only and does not edit Manifest files',
 ]
@@ -147,7 +208,10 @@ IGNORE_LINE = b'IGNORE c11-not-there\n'
 
 # family 'dirs'
 LOCS = ('top', 'inner')          # where a package directory goes: <root>/<pkg> or <root>/<slot dir>/<pkg>
-KINDS = {'quick': ('plain', 'mani', 'gz'), 'thorough': ('plain', 'mani', 'gz', 'xz')}
+KINDS = {'base': ('plain', 'mani', 'gz'), 'wide': ('plain', 'mani', 'gz', 'bz2', 'lzma', 'xz'), 'slim': ('plain', 'mani')}
+# tier -> [(time zone, kinds of package directory / appearing Manifest, rounds per history)]
+DIRS_PLAN = {'quick': [('utc', 'base', 2), ('east', 'base', 2), ('west', 'base', 2), ('utc', 'slim', 3)],
+             'thorough': [('utc', 'base', 3), ('utc', 'wide', 2), ('east', 'wide', 2), ('west', 'wide', 2)]}
 KIND_COMP = {'mani': None, 'gz': 'gz', 'bz2': 'bz2', 'lzma': 'lzma', 'xz': 'xz'}
 HOWS = ('same', 'other')         # dir_replace: the rewritten file keeps / changes its size
 CONTENTS = ('full', 'empty')     # mani_appear: entries for every file below the directory / no entry at all
@@ -554,14 +618,21 @@ class Run:
             self.stats.counters['cli_calls_through_main'] += 1
             return gem.cli(argv)
 
+    def report_failed(self, mode, r, what):
+        argv = {'create': ['create', '-t'], 'incr': ['update', '--incremental'], 'full': ['update']}[mode]
+        self.violation({'check': 'update_failed', 'mode': mode, 'got': gem.brief(r), 'where': r.get('where')},
+                       f'update_failed: {what}: `gemato {" ".join(argv)}` gave {gem.brief(r)} '
+                       f'{r.get("msg") or r["log"][-1:]}')
+
     def verify(self, d):
         self.stats.counters['verify_runs'] += 1
         r = self.cli(['verify', d])
         return r['kind'] == 'ret' and r['value'] == 0, r
 
-    def update(self, d, mode, start_us, what):
+    def update(self, d, mode, start_us, what, tolerate=False):
         """mode: 'create' | 'incr' | 'full'.  Runs the command with the scan starting at
         fake instant start_us; checks the TIMESTAMP; re-stamps rewritten Manifests.
+        tolerate: a failing command is not reported here (the caller judges it).
         -> (ok, observation)"""
         before = read_manifests(d)
         mt_before = {p: os.stat(os.path.join(d, p)).st_mtime_ns for p in before}
@@ -574,10 +645,9 @@ class Run:
         self.stats.outcomes[f'{mode}/{gem.brief(r)}'] += 1
         ok = r['kind'] == 'ret' and r['value'] == 0
         if not ok:
-            self.violation({'check': 'update_failed', 'mode': mode, 'got': gem.brief(r),
-                            'where': r.get('where')},
-                           f'update_failed: {what}: `gemato {" ".join(argv)}` gave {gem.brief(r)} '
-                           f'{r.get("msg") or r["log"][-1:]}')
+            self.last = {'argv': argv}
+            if not tolerate:
+                self.report_failed(mode, r, what)
             return False, r
         if CLOCK.calls != calls0 + 1:
             raise HarnessError(f'clock seam: {mode} consulted the fake clock {CLOCK.calls - calls0} times')
@@ -650,10 +720,169 @@ def mani_applicable(op, data):
     return IGNORE_LINE not in lines
 
 
+# ------------------------------------------------------------------ alphabet 'dirs'
+
+def dir_state(d, cfg):
+    """What the applicability of the directory operations depends on, read from replica directory d."""
+    sd = os.path.join(d, slot_dir(cfg['seed']))
+    st = {'slotdir': os.path.isdir(sd), 'slotdir_manifest': False, 'pkgs': {}}
+    if st['slotdir']:
+        st['slotdir_manifest'] = bool(manifest_names_in(sd))
+    for loc in LOCS:
+        p = os.path.join(d, pkg_dir(cfg, loc))
+        if not os.path.isdir(p):
+            st['pkgs'][loc] = None
+        else:
+            st['pkgs'][loc] = dict(zip('xyz', (os.path.isfile(os.path.join(p, n)) for n in pkg_names(cfg['seed']))),
+                                   manifest=bool(manifest_names_in(p)))
+    return st
+
+
+def initial_dir_state(layout):
+    return {'slotdir': True, 'slotdir_manifest': layout == 'nested', 'pkgs': {loc: None for loc in LOCS}}
+
+
+def dir_choices(st, kinds):
+    """Applicable directory operations in abstract state st (see dir_state)."""
+    out = []
+    for loc in LOCS:
+        pk = st['pkgs'][loc]
+        if pk is None:
+            if loc == 'inner' and not st['slotdir']:
+                continue
+            for kind in kinds:
+                for mc in MCLASSES:
+                    out.append(('dir_add', f'{loc}:{kind}', mc))
+            continue
+        out.append(('dir_remove', loc, None))
+        if pk['x']:
+            for how in HOWS:
+                for mc in MCLASSES:
+                    out.append(('dir_replace', f'{loc}:{how}', mc))
+            for op in ('pkg_modify_same_size', 'pkg_modify_other_size'):
+                for mc in MCLASSES:
+                    out.append((op, loc, mc))
+        if pk['y']:
+            out.append(('pkg_delete', loc, None))
+        if not pk['z']:
+            for mc in MCLASSES:
+                out.append(('pkg_add', loc, mc))
+    if st['slotdir']:
+        out.append(('dir_remove', 'slotdir', None))
+    for where in ('slotdir',) + LOCS:
+        if where == 'slotdir':
+            bare = st['slotdir'] and not st['slotdir_manifest']
+        else:
+            bare = st['pkgs'][where] is not None and not st['pkgs'][where]['manifest']
+        if bare:
+            for content in CONTENTS:
+                for kind in kinds:
+                    if kind != 'plain':
+                        for mc in MCLASSES:
+                            out.append(('mani_appear', f'{where}:{content}:{kind}', mc))
+    return out
+
+
+def apply_dir_op(d, cfg, choice, ns):
+    op, arg, _mc = choice
+    seed = cfg['seed']
+    px, py, pz = pkg_names(seed)
+    if op == 'dir_add':
+        loc, kind = arg.split(':')
+        write_pkg(os.path.join(d, pkg_dir(cfg, loc)), kind,
+                  {px: bytes([0x70 + seed % 8]) * 4, py: bytes([0x51 + seed % 8]) * 2}, ns)
+    elif op == 'dir_remove':
+        shutil.rmtree(os.path.join(d, where_dir(cfg, arg)))
+    elif op == 'dir_replace':
+        loc, how = arg.split(':')
+        path = os.path.join(d, pkg_dir(cfg, loc))
+        names = manifest_names_in(path)
+        if len(names) > 1:
+            raise HarnessError(f'{path}: more than one Manifest file: {names}')
+        kind = 'plain' if not names else (comp_of(names[0]) or 'mani')
+        files = {}
+        for n in sorted(os.listdir(path)):
+            if n not in names:
+                if not os.path.isfile(os.path.join(path, n)):
+                    raise HarnessError(f'{path}/{n}: not a regular file')
+                with open(os.path.join(path, n), 'rb') as f:
+                    files[n] = f.read()
+        old = files[px]
+        # 'other': 4 -> 41 -> 411 bytes, so that the number of digits of the size (and with it the size of a
+        # plain Manifest that lists it) changes as well
+        files[px] = (bytes([old[0] ^ 1]) + old[1:]) if how == 'same' else old + b'+' * (9 * len(old) + 1)
+        write_pkg(path, kind, files, ns)
+    elif op == 'mani_appear':
+        where, content, kind = arg.split(':')
+        path = os.path.join(d, where_dir(cfg, where))
+        if manifest_names_in(path):
+            raise HarnessError(f'mani_appear: {path} has a Manifest already')
+        files = files_below(path) if content == 'full' else {}
+        write_file(os.path.join(path, manifest_file_name(kind)),
+                   compress(shipped_manifest(files), KIND_COMP[kind]), ns)
+    elif op in ('pkg_modify_same_size', 'pkg_modify_other_size'):
+        p = os.path.join(d, pkg_dir(cfg, arg), px)
+        with open(p, 'rb') as f:
+            old = f.read()
+        write_file(p, new_content(old, op[4:], 0, seed), ns)
+    elif op == 'pkg_delete':
+        os.unlink(os.path.join(d, pkg_dir(cfg, arg), py))
+    elif op == 'pkg_add':
+        write_file(os.path.join(d, pkg_dir(cfg, arg), pz), b'z' + bytes([0x30 + seed % 10]) * 2, ns)
+    else:
+        raise ValueError(op)
+    return ns
+
+
+def premise(before, after, ts_prev):
+    """The statement's premise read off two snapshots of one replica (before / after the tree edit of a
+    round): -> ('must', None) when every file whose content was modified has a changed size or an mtime later
+    than the previous TIMESTAMP and every added file has an mtime later than it; else ('dontcare', reason)."""
+    cut = ts_prev * 10 ** 9
+    added_old = False
+    for p, v in sorted(after.items()):
+        if v[0] != 'f':
+            continue
+        o = before.get(p)
+        if o is None or o[0] != 'f':
+            added_old = added_old or v[2] <= cut
+        elif o[1] != v[1] and len(o[1]) == len(v[1]) and v[2] <= cut:
+            return 'dontcare', ('same-size modification' + (' of a Manifest file' if os.path.basename(p).startswith('Manifest')
+                                                            else '')
+                                + ' with mtime not later than the previous TIMESTAMP (premise false)')
+    if added_old:
+        return 'dontcare', ('added file with mtime not later than the previous TIMESTAMP: arguable whether an '
+                            'added file is a "modified file" of the premise')
+    return 'must', None
+
+
+def describe_dir_op(cfg, choice):
+    op, arg, _mc = choice
+    px, py, pz = pkg_names(cfg['seed'])
+    if op == 'dir_add':
+        loc, kind = arg.split(':')
+        return (f'new directory {pkg_dir(cfg, loc)!r} with files {px!r}, {py!r}'
+                + ('' if kind == 'plain' else f' and its own valid {manifest_file_name(kind)}'))
+    if op == 'dir_remove':
+        return f'directory {where_dir(cfg, arg)!r} removed with everything in it'
+    if op == 'dir_replace':
+        loc, how = arg.split(':')
+        return (f'directory {pkg_dir(cfg, loc)!r} replaced by a new copy in which {px!r} has other content of '
+                f'{"the same" if how == "same" else "another"} size (its own Manifest file, if any, regenerated to match)')
+    if op == 'mani_appear':
+        where, content, kind = arg.split(':')
+        return (f'a valid {manifest_file_name(kind)} ({"one entry per file below" if content == "full" else "no entries"}) '
+                f'appears in existing directory {where_dir(cfg, where)!r}')
+    name = {'pkg_modify_same_size': px, 'pkg_modify_other_size': px, 'pkg_delete': py, 'pkg_add': pz}[op]
+    return f'{op[4:]} on {os.path.join(pkg_dir(cfg, arg), name)!r}'
+
+
 def apply_op(d, cfg, choice, ts_prev):
     """Apply one operation to replica directory d.  -> mtime ns given (or None)"""
     op, slot, mc = choice
     ns = None if mc is None else ts_prev * 10 ** 9 + MC_NS[mc]
+    if op in DIR_OPS:
+        return apply_dir_op(d, cfg, choice, ns)
     if op in MANI_OPS:
         p = sub_manifest(d, cfg)
         with open(p, 'rb') as f:
@@ -698,6 +927,8 @@ def apply_op(d, cfg, choice, ts_prev):
 
 def choices(d, cfg):
     """Applicable operations in the current state of replica directory d."""
+    if cfg.get('alpha', 'files') == 'dirs':
+        return dir_choices(dir_state(d, cfg), tuple(cfg['kinds']))
     out = []
     for s, rel in enumerate(slot_paths(cfg['seed'])):
         p = os.path.join(d, rel)
@@ -721,9 +952,11 @@ def choices(d, cfg):
     return out
 
 
-def initial_choices(layout):
+def initial_choices(layout, alpha='files', kinds=()):
     """choices() on the initial history tree (slots 0 and 1 exist, non-empty; slot 2 absent; nested: the
-    sub-Manifest carries neither of the lines that the harness appends)."""
+    sub-Manifest carries neither of the lines that the harness appends; no package directory)."""
+    if alpha == 'dirs':
+        return dir_choices(initial_dir_state(layout), tuple(kinds))
     out = []
     for s in (0, 1):
         for op in EXISTING_OPS:
@@ -764,6 +997,8 @@ def play_round(run, A, B, choice, rnd, history):
     """One round on both replicas.  -> False when the history cannot be continued."""
     cfg, stats = run.cfg, run.stats
     op, slot, mc = choice
+    dirs = cfg.get('alpha', 'files') == 'dirs'
+    fam = 'dirs/' if dirs else ''            # prefix of the outcome classes and of the family's own counters
     run.rnd = rnd
     h = run.h
     start_s = round_start_s(cfg['clock'], rnd)
@@ -776,15 +1011,54 @@ def play_round(run, A, B, choice, rnd, history):
         if not h['diverged']:
             raise HarnessError(f'model TIMESTAMP {ts_prev} != TIMESTAMP in A {ts_actual} without a reported violation')
         stats.counters['round_relative_to_model_timestamp_after_timestamp_violation'] += 1
+    tree_before = snapshot(A) if dirs else None
     ns = apply_op(A, cfg, choice, ts_prev)
     apply_op(B, cfg, choice, ts_prev)
+    if dirs:
+        # the premise is read off the tree itself (what was modified / added, with which size and mtime)
+        verdict, reason = premise(tree_before, snapshot(A), ts_prev)
+        pending = unregistered(read_manifests(A))
+    else:
+        verdict, reason = verdict_for(choice)
+        pending = []
     what = (f'history {history} tz={cfg["tz"]} layout={cfg["layout"]} clock={cfg["clock"]} frac={cfg["frac"]}us '
             f'round {rnd}')
     stats.evaluations += 1
-    ok_a, _ra = run.update(A, 'incr', start_us, what)
+    ok_a, ra = run.update(A, 'incr', start_us, what, tolerate=dirs)
     la = run.last
-    ok_b, _rb = run.update(B, 'full', start_us, what)
+    ok_b, rb = run.update(B, 'full', start_us, what, tolerate=dirs)
+    stats.counters[f'{fam}round:{op}:{mc}'] += 1
+    if dirs:
+        stats.counters[f'dirs/arg:{op}:{slot}'] += 1
+        stats.counters[f'dirs/tz:{cfg["tz"]}'] += 1
+        stats.counters[f'dirs/layout:{cfg["layout"]}'] += 1
+    else:
+        stats.counters[f'tz:{cfg["tz"]}'] += 1
+        stats.counters[f'layout:{cfg["layout"]}'] += 1
+        stats.counters[f'clock:{cfg["clock"]}'] += 1
     if not (ok_a and ok_b):
+        if not dirs:
+            return False
+        if ok_a or ok_b:
+            # one update fails where the other succeeds: whatever the premise, report the failing one
+            run.report_failed('full' if ok_a else 'incr', rb if ok_a else ra,
+                              what + f' ({describe_dir_op(cfg, choice)}; the '
+                              f'{"incremental" if ok_a else "full"} update on the same tree succeeded)')
+            stats.outcomes[f'dirs/one_update_fails/{"full" if ok_a else "incr"}'] += 1
+            return False
+        ea, eb = parsed(read_manifests(A))[0], parsed(read_manifests(B))[0]
+        if ea != eb and verdict == 'must':
+            stats.compared += 1
+            stats.outcomes['dirs/must/both_updates_fail_and_differ'] += 1
+            run.violation({'check': 'incremental_differs_from_full', 'op': op, 'mtime_class': sig_class(mc)},
+                          f'incremental_differs_from_full: {what}: {describe_dir_op(cfg, choice)}: both updates failed '
+                          f'({gem.brief(ra)} / {gem.brief(rb)}) but left different Manifests: '
+                          f'{"; ".join(diff_paths(ea, eb))}')
+        else:
+            stats.dontcare['both the incremental and the full update fail (the statement does not say what an update '
+                           'does with such a tree) and leave the same Manifest contents'
+                           if ea == eb else reason] += 1
+            stats.outcomes[f'dirs/dontcare/both_updates_fail/{op}:{gem.brief(ra)}/{gem.brief(rb)}'] += 1
         return False
     ea, _tsa, rawa, stale_a = parsed(read_manifests(A))
     eb, _tsb, rawb, stale_b = parsed(read_manifests(B))
@@ -794,13 +1068,8 @@ def play_round(run, A, B, choice, rnd, history):
     if not vb:
         run.violation({'check': 'sanity_full_update_result_fails_verify', 'op': op},
                       f'sanity: {what}: replica B does not verify after a full update: {rvb["log"][-2:]}')
-    verdict, reason = verdict_for(choice)
     stale_a = [p for p in stale_a if p not in stale_b]      # stale in B as well: not a difference (B fails verify)
     equal = ea == eb and not stale_a
-    stats.counters[f'round:{op}:{mc}'] += 1
-    stats.counters[f'tz:{cfg["tz"]}'] += 1
-    stats.counters[f'layout:{cfg["layout"]}'] += 1
-    stats.counters[f'clock:{cfg["clock"]}'] += 1
     if la['stepback']:
         stats.counters[f'stepback_round:{cfg["clock"]}:round{rnd}:'
                        + ('top_manifest_written' if la['top_written'] else 'nothing_written')] += 1
@@ -813,22 +1082,31 @@ def play_round(run, A, B, choice, rnd, history):
     if op in MANI_OPS:
         stats.counters[f'sub_manifest_edit:{verdict}:'
                        + ('parent_entry_current_in_A' if not stale_a else 'parent_entry_stale_in_A')] += 1
+    for p in pending:
+        # a Manifest file that no MANIFEST entry named when the updates started
+        still = p in unregistered(read_manifests(B))
+        stats.counters[f'dirs/unregistered_manifest_before_round:{verdict}:{comp_of(p) or "plain"}:'
+                       + ('still_unregistered_after_full_update' if still else 'registered_by_full_update')] += 1
     if equal and rawa != rawb:
         stats.counters['equal_but_line_order_differs'] += 1
     if verdict == 'must':
         stats.compared += 1
-        stats.counters['pre_true'] += 1
+        stats.counters[fam + 'pre_true'] += 1
         sig = {'check': 'incremental_differs_from_full', 'op': op, 'mtime_class': sig_class(mc)}
+        if dirs:
+            target = describe_dir_op(cfg, choice)
+        elif slot is None:
+            target = f'{op} on the sub-Manifest {os.path.join(slot_dir(cfg["seed"]), "Manifest")!r}'
+        else:
+            target = f'{op} on slot {slot} ({slot_paths(cfg["seed"])[slot]!r})'
         if not equal:
-            stats.outcomes['must/differs'] += 1
-            target = (f'the sub-Manifest {os.path.join(slot_dir(cfg["seed"]), "Manifest")!r}' if slot is None
-                      else f'slot {slot} ({slot_paths(cfg["seed"])[slot]!r})')
+            stats.outcomes[fam + 'must/differs'] += 1
             when = '' if mc is None else (f' with mtime = previous TIMESTAMP {ts_prev} {MC_NS[mc] / 1e9:+.1f} s ({mc}'
                                           + (f'; the Manifest of A carries the stale TIMESTAMP {ts_actual}'
                                              if ts_actual != ts_prev else '') + ')')
             diffs = diff_paths(ea, eb) + [f'A: MANIFEST entry for {p} does not match the file (size / {HASH}), '
                                           f'B: it does' for p in stale_a]
-            run.violation(sig, f'incremental_differs_from_full: {what}: {op} on {target}{when}, '
+            run.violation(sig, f'incremental_differs_from_full: {what}: {target}{when}, '
                           f'TZ={TZS[cfg["tz"]][0]}: {"; ".join(diffs)}')
         else:
             if snapshot(A) == snapshot(B):
@@ -839,16 +1117,16 @@ def play_round(run, A, B, choice, rnd, history):
             else:
                 va, rva = run.verify(A)
             if va:
-                stats.outcomes['must/equal'] += 1
+                stats.outcomes[fam + 'must/equal'] += 1
             else:
-                stats.outcomes['must/equal_but_A_fails_verify'] += 1
+                stats.outcomes[fam + 'must/equal_but_A_fails_verify'] += 1
                 run.violation(dict(sig, check='incremental_result_fails_verify'),
-                              f'incremental_result_fails_verify: {what}: {op} on slot {slot} ({mc}): '
+                              f'incremental_result_fails_verify: {what}: {target} ({mc}): '
                               f'{rva["log"][-2:]}')
     else:
-        stats.counters['pre_false'] += 1
+        stats.counters[fam + 'pre_false'] += 1
         stats.dontcare[reason] += 1
-        stats.outcomes[f'dontcare/{"equal" if equal else "differs"}/{op}:{mc}'] += 1
+        stats.outcomes[f'{fam}dontcare/{"equal" if equal else "differs"}/{op}:{mc}'] += 1
     if not equal:
         stats.counters['resync_full_update_on_A'] += 1
         ok, _r = run.update(A, 'full', start_us, what + ' (re-sync)')
@@ -858,8 +1136,15 @@ def play_round(run, A, B, choice, rnd, history):
                   top_written=la['top_written'] or run.last['top_written'])
         ea2, _ts2, _raw2, stale2 = parsed(read_manifests(A))
         if ea2 != eb or (stale2 and not stale_b):
-            raise HarnessError(f'{what}: a full update on A does not give B\'s Manifests: {diff_paths(ea2, eb)} '
-                               f'{stale2}')
+            if not dirs:
+                raise HarnessError(f'{what}: a full update on A does not give B\'s Manifests: {diff_paths(ea2, eb)} '
+                                   f'{stale2}')
+            # what the incremental update recorded (e.g. a Manifest file as plain data) is not undone by a full
+            # update: continue from a copy of B with B's TIMESTAMP
+            stats.counters['dirs/resync_by_copy_of_B'] += 1
+            tsb = parsed(read_manifests(B))[1]
+            restore(A, snapshot(B))
+            la = dict(la, ts_after=tsb, ts_model=tsb if la['ts_model'] == la['ts_after'] else la['ts_model'])
     h['ts_model'] = la['ts_model']
     h['diverged'] = la['ts_model'] != la['ts_after']
     if la['stepback'] and la['top_written']:
@@ -888,8 +1173,11 @@ def start_history(run, root):
 
 
 def hist_case(cfg, history):
-    return {'family': 'hist', 'tz': cfg['tz'], 'layout': cfg['layout'], 'frac': cfg['frac'], 'clock': cfg['clock'],
+    case = {'family': 'hist', 'tz': cfg['tz'], 'layout': cfg['layout'], 'frac': cfg['frac'], 'clock': cfg['clock'],
             'seed': cfg['seed'], 'rounds': [list(c) for c in history]}
+    if cfg.get('alpha', 'files') == 'dirs':
+        case.update(family='dirs', alpha='dirs', kinds=list(cfg['kinds']))
+    return case
 
 
 def explore_hist(cfg, first, depth_max, stats, scratch):
@@ -908,7 +1196,7 @@ def explore_hist(cfg, first, depth_max, stats, scratch):
         rnd = len(history) + 1
         chs = choices(A, cfg)
         if rnd == 1:
-            if chs != initial_choices(cfg['layout']):
+            if chs != initial_choices(cfg['layout'], cfg.get('alpha', 'files'), cfg.get('kinds', ())):
                 raise HarnessError('initial choices differ from the static list')
             chs = [chs[first]]
         snap = (snapshot(A), snapshot(B), dict(run.h))
@@ -920,10 +1208,10 @@ def explore_hist(cfg, first, depth_max, stats, scratch):
             run.case = hist_case(cfg, h)
             n0 = stats.compared
             cont = play_round(run, A, B, ch, rnd, h)
-            stats.case(('hist', cfg['tz'], cfg['layout'], cfg['clock'], cfg['frac'], tuple(h)),
+            stats.case((run.case['family'], cfg['tz'], cfg['layout'], cfg['clock'], cfg['frac'], tuple(h)),
                        nontrivial=stats.compared > n0)
             if len(stats.samples) < 1 and rnd == 2 and first == 0 and cfg['layout'] == 'nested':
-                stats.sample({'family': 'hist', 'config': cfg, 'history': h})
+                stats.sample({'family': run.case['family'], 'config': cfg, 'history': h})
             for v in run.vio:
                 stats.violation(v['sig'], v['case'], v['message'])
             run.vio = []
@@ -935,6 +1223,8 @@ def explore_hist(cfg, first, depth_max, stats, scratch):
 def replay_hist(case, scratch):
     cfg = {'tz': case['tz'], 'layout': case['layout'], 'frac': case['frac'], 'seed': case['seed'],
            'clock': case.get('clock', 'mono')}
+    if case.get('alpha', 'files') == 'dirs':
+        cfg.update(alpha='dirs', kinds=tuple(case['kinds']))
     run = Run(cfg, None)
     run.case = case
     with harness_env(cfg['tz']):
@@ -993,6 +1283,7 @@ def check_inflight(run, root, mode, pre, k, j, size, delta):
         write_file(path, new, CLOCK.us * 1000)
         edit['ns'] = CLOCK.us * 1000
         edit['resized'] = len(new) != len(old)
+        edit['old'], edit['new'] = old, new
 
     stats.evaluations += 1
     run.rnd = 0                       # the two updates under test always go through gemato.cli.main
@@ -1005,6 +1296,13 @@ def check_inflight(run, root, mode, pre, k, j, size, delta):
     if st['fired'] != 1:
         raise HarnessError(f'{what}: hook fired {st["fired"]} times ({st["n"]} calls counted)')
     ts_run = parsed(read_manifests(A))[1]
+    # did the running update record the file as it was before or after the edit?  (observed in the Manifests it
+    # left, not in how it got there: 'new' = the edit came before the update read the file, 'old' = after that
+    # - or the update had no reason to read it)
+    rec = recorded_for(read_manifests(A), sp[j])
+    seen = {(len(edit['new']), rm.hexdigest(HASH, edit['new'])): 'new',
+            (len(edit['old']), rm.hexdigest(HASH, edit['old'])): 'old'}.get(rec, 'neither')
+    stats.counters[f'inflight_running_update_recorded:{cfg["layout"]}:{mode}:j{j}:{seen}'] += 1
     stats.counters['inflight_running_update_' + ('refreshed_timestamp' if ts_run == s1 // 10 ** 6
                                                  else 'kept_timestamp')] += 1
     s2 = (T0 + 2 * STEP) * 10 ** 6 + cfg['frac']
@@ -1023,7 +1321,7 @@ def check_inflight(run, root, mode, pre, k, j, size, delta):
                       f'sanity: {what}: the tree does not verify after a full update')
     op = 'modify_same_size' if size == 'same' else 'modify_other_size'
     later = edit['ns'] > (s1 // 10 ** 6) * 10 ** 9
-    stats.counters[f'inflight:{cfg["layout"]}:k{k}:j{j}'] += 1
+    stats.counters[f'inflight:{cfg["layout"]}:j{j}'] += 1
     stats.counters[f'tz:{cfg["tz"]}'] += 1
     equal = e_incr == e_full
     if edit['resized'] or later:
@@ -1054,16 +1352,18 @@ def check_inflight(run, root, mode, pre, k, j, size, delta):
 def explore_inflight(cfg, mode, stats, scratch):
     run = Run(cfg, stats, hoist_from_round=1)
     root = fresh_root(scratch)
-    run.case = inflight_case(cfg, mode, 'none', None, None, None, None)
-    K = check_inflight(run, root, mode, 'none', None, None, None, None)
-    if K is None:
-        for v in run.vio:
-            stats.violation(v['sig'], v['case'], v['message'])
-        return
-    stats.counters[f'inflight_K:{cfg["layout"]}:{K}'] += 1
     for pre in ('none', 'other'):
-        for k in range(K + 1):
-            for j in range(3):
+        for j in range(3):
+            # number of injection points of this running update (dry run without an edit)
+            run.case = inflight_case(cfg, mode, pre, None, j, None, None)
+            K = check_inflight(run, root, mode, pre, None, j, None, None)
+            for v in run.vio:
+                stats.violation(v['sig'], v['case'], v['message'])
+            run.vio = []
+            if K is None:
+                continue
+            stats.counters['inflight_injection_points'] += K + 1
+            for k in range(K + 1):
                 for size in ('same', 'other'):
                     for delta in DELTAS:
                         run.case = inflight_case(cfg, mode, pre, k, j, size, delta)
@@ -1091,7 +1391,7 @@ def replay_inflight(case, scratch):
 # ------------------------------------------------------------------ runner interface
 
 def replay(case, scratch):
-    if case['family'] == 'hist':
+    if case['family'] in ('hist', 'dirs'):
         return replay_hist(case, scratch)
     return replay_inflight(case, scratch)
 
@@ -1106,6 +1406,8 @@ def depth_for(tier, frac, clock='mono', tz='utc'):
     return 3 if clock == 'mono' or tz == 'utc' else 2
 
 
+
+
 def shards(tier, seed):
     out = []
     for clock, frac in CLOCK_FRACS:
@@ -1113,6 +1415,10 @@ def shards(tier, seed):
             for layout in LAYOUTS:
                 for first in range(len(initial_choices(layout))):
                     out.append(('hist', tz, layout, frac, first, clock))
+    for tz, kset, depth in DIRS_PLAN[tier]:
+        for layout in LAYOUTS:
+            for first in range(len(initial_choices(layout, 'dirs', KINDS[kset]))):
+                out.append(('dirs', tz, layout, 0, first, 'mono', kset, depth))
     for tz in TZS:
         for layout in LAYOUTS:
             for frac in FRACS:
@@ -1122,6 +1428,9 @@ def shards(tier, seed):
     def cost(s):          # rough number of gemato runs; longest first keeps the workers busy
         if s[0] == 'inflight':
             return 1000
+        if s[0] == 'dirs':
+            n = len(initial_choices(s[2], 'dirs', KINDS[s[6]]))
+            return 4 * n if s[7] == 2 else 4 * n * n
         n = len(initial_choices(s[2]))
         return 3 * n if depth_for(tier, s[3], s[5], s[1]) == 2 else 3 * n * n
     out.sort(key=lambda s: -cost(s))
@@ -1129,7 +1438,12 @@ def shards(tier, seed):
     # first, so that the example kept for a signature tends to be a one-round history
     w = ('hist', 'west', 'flat', 0, initial_choices('flat').index(('modify_same_size', 0, 'newer')), 'mono')
     out.remove(w)
-    return [w] + out
+    # the same for family 'dirs': the one-round history "a directory with its own Manifest is added"
+    w2 = ('dirs', 'utc', 'flat', 0,
+          initial_choices('flat', 'dirs', KINDS['base']).index(('dir_add', 'top:mani', 'newer')), 'mono', 'base',
+          DIRS_PLAN[tier][0][2])
+    out.remove(w2)
+    return [w, w2] + out
 
 
 def run_shard(spec, tier, seed, scratch):
@@ -1140,11 +1454,61 @@ def run_shard(spec, tier, seed, scratch):
     with harness_env(tz):
         if fam == 'hist':
             explore_hist(cfg, spec[4], depth_for(tier, frac, spec[5], tz), stats, scratch)
+        elif fam == 'dirs':
+            cfg.update(alpha='dirs', kinds=KINDS[spec[6]])
+            explore_hist(cfg, spec[4], spec[7], stats, scratch)
         else:
             explore_inflight(cfg, spec[4], stats, scratch)
     if time.localtime(T0).tm_gmtoff != off0 or gemato.cli.datetime is not _dt:
         raise HarnessError('time zone or clock seam not restored')
     return stats
+
+
+def finish_dirs(total, tier):
+    """Vacuity guards of family 'dirs'."""
+    errs = []
+    c = total.counters
+    kinds = [k for k in KINDS['wide'] if any(k in KINDS[kset] for _tz, kset, _depth in DIRS_PLAN[tier])]
+    for op in DIR_MC_OPS:
+        for mc in MCLASSES:
+            if not c.get(f'dirs/round:{op}:{mc}'):
+                errs.append(f'vacuity: dirs: no round with {op} x {mc}')
+    for op in DIR_PLAIN_OPS:
+        if not c.get(f'dirs/round:{op}:None'):
+            errs.append(f'vacuity: dirs: no {op} round')
+    want = [('dir_add', f'{loc}:{kind}') for loc in LOCS for kind in kinds]
+    want += [('dir_remove', w) for w in LOCS + ('slotdir',)]
+    want += [('dir_replace', f'{loc}:{how}') for loc in LOCS for how in HOWS]
+    want += [('mani_appear', f'{w}:{content}:{kind}') for w in LOCS + ('slotdir',) for content in CONTENTS
+             for kind in kinds if kind != 'plain']
+    want += [(op, loc) for op in ('pkg_modify_same_size', 'pkg_modify_other_size', 'pkg_delete', 'pkg_add')
+             for loc in LOCS]
+    for op, arg in want:
+        if not c.get(f'dirs/arg:{op}:{arg}'):
+            errs.append(f'vacuity: dirs: operation {op} never applied with {arg}')
+    for tz in TZS:
+        if not c.get(f'dirs/tz:{tz}'):
+            errs.append(f'vacuity: dirs: time zone {tz} not exercised')
+    for layout in LAYOUTS:
+        if not c.get(f'dirs/layout:{layout}'):
+            errs.append(f'vacuity: dirs: layout {layout} not exercised')
+    # Manifest files that nothing referred to when the updates started, in rounds judged MUST, per compression
+    for kind in kinds:
+        if kind != 'plain':
+            comp = KIND_COMP[kind] or 'plain'
+            if not any(v for k, v in c.items()
+                       if k.startswith(f'dirs/unregistered_manifest_before_round:must:{comp}:')):
+                errs.append(f'vacuity: dirs: no MUST round that started with an unreferenced '
+                            f'{manifest_file_name(kind)} in the tree')
+    for k in ('dirs/pre_true', 'dirs/pre_false'):
+        if not c.get(k):
+            errs.append(f'vacuity: counter {k} is zero')
+    labels = [k for k, v in total.outcomes.items() if k.startswith('dirs/') and v]
+    if not total.outcomes.get('dirs/must/equal'):
+        errs.append('vacuity: dirs: no MUST round ended with equal Manifests')
+    if len(labels) < 2:
+        errs.append(f'vacuity: dirs: a single outcome class ({labels})')
+    return errs
 
 
 def finish(total, tier):
@@ -1203,14 +1567,18 @@ def finish(total, tier):
     for layout in LAYOUTS:
         if not c.get(f'layout:{layout}'):
             errs.append(f'vacuity: layout {layout} not exercised')
-        ks = sorted(int(k.rsplit(':', 1)[1]) for k in c if k.startswith(f'inflight_K:{layout}:'))
-        if len(ks) != 1 or ks[0] < 3:
-            errs.append(f'in-flight family: number of per-file calls for layout {layout} is {ks} (one value >= 3 expected)')
-            continue
-        for k in range(ks[0] + 1):
-            for j in range(3):
-                if not c.get(f'inflight:{layout}:k{k}:j{j}'):
-                    errs.append(f'vacuity: in-flight (k={k}, j={j}) not covered for layout {layout}')
+        # the schedule quantifier ("a modification injected after each individual file has been hashed"), judged by
+        # what the running update left in the Manifests: for every file there must be an injection that came too
+        # late for a running full update (it recorded the file as it was before the edit) and one that it still
+        # saw; how many calls the implementation needs per file is not the harness's business
+        for j in range(3):
+            if not c.get(f'inflight:{layout}:j{j}'):
+                errs.append(f'vacuity: no in-flight case for file slot {j} in layout {layout}')
+            for seen, text in (('old', 'after the running full update had recorded the file'),
+                               ('new', 'before the running full update recorded the file')):
+                if not c.get(f'inflight_running_update_recorded:{layout}:full:j{j}:{seen}'):
+                    errs.append(f'vacuity: no in-flight edit of file slot {j} injected {text} (layout {layout})')
+    errs += finish_dirs(total, tier)
     if c.get('clock_seam_mismatch'):
         errs.append(f'clock seam: {c["clock_seam_mismatch"]} updates left a TIMESTAMP that is neither the previous '
                     'one nor the fake scan start (real time leaked, or the TIMESTAMP is not the UTC scan start); '
